@@ -50,6 +50,30 @@ def unimodular(rng, n, steps, big):
     return M
 
 
+def exact_integer_inverse(M):
+    """Oracle: the inverse over the rationals by cofactor expansion / adjugate with Python integers; None unless it is an integer matrix."""
+    from fractions import Fraction
+    n = len(M)
+
+    def det(A):
+        if len(A) == 1:
+            return A[0][0]
+        if len(A) == 2:
+            return A[0][0] * A[1][1] - A[0][1] * A[1][0]
+        return sum((-1) ** j * A[0][j] * det([row[:j] + row[j + 1:] for row in A[1:]]) for j in range(len(A)) if A[0][j])
+    d = det(M)
+    if d == 0:
+        return None
+    if n == 1:
+        adj = [[1]]
+    else:
+        adj = [[(-1) ** (i + j) * det([row[:i] + row[i + 1:] for k, row in enumerate(M) if k != j]) for j in range(n)] for i in range(n)]
+    inv = [[Fraction(v, d) for v in row] for row in adj]
+    if any(v.denominator != 1 for row in inv for v in row):
+        return None
+    return [[int(v) for v in row] for row in inv]
+
+
 def mat_mul_exact(A, B):
     n = len(A)
     return [[sum(A[i][j] * B[j][k] for j in range(n)) for k in range(n)] for i in range(n)]
@@ -146,11 +170,24 @@ def run(ctx):
     if not hasattr(cgd.np.linalg, "inv"):
         raise TieBroken("np.linalg.inv not reachable from cayley_graph_def")
     cgd.np.linalg.inv = rec_inv
+    # the exact rational fallback of MatrixGenerator.inv (fix F24) is a second oracle: what it returned is recorded and fed to the model
+    recorded_exact = []
+    orig_exact = getattr(cgd, "_integer_inverse", None)
+    if orig_exact is not None:
+        def rec_exact(a):
+            r = orig_exact(a)
+            recorded_exact.append(None if r is None else np.asarray(r).tolist())
+            return r
+        cgd._integer_inverse = rec_exact
     try:
-        for _ in range(ctx.budget(150, 1500)):
+        for it in range(ctx.budget(150, 1500)):
             n = rng.randint(1, 4)
             r = rng.random()
-            if r < 0.6:
+            if it % 6 == 5:
+                # ill-conditioned unimodular matrices: the rounded floating-point inverse is off by more than 1/2 (finding F24)
+                n, modulo = 4, 0
+                mats = [unimodular(rng, 4, rng.randint(9, 14), rng.choice([2**10, 2**11, 2**12])) for _ in range(rng.randint(1, 2))]
+            elif r < 0.6:
                 modulo = 0
                 big = rng.choice([3, 10, 2**10, 2**20])
                 k = rng.randint(1, 4)
@@ -178,11 +215,12 @@ def run(ctx):
             d = CayleyGraphDef.for_matrix_group(generators=gens)
             invmap = d.generators_inverse_map
             flag = d.generators_inverse_closed
-            cands, invs = [], []
+            cands, invs, exacts = [], [], []
             case = {"class": "matrix_def", "mats": mats, "modulo": modulo}
             eye = [[1 if i == j else 0 for j in range(n)] for i in range(n)]
             for gi, g in enumerate(gens):
                 recorded.clear()
+                recorded_exact.clear()
                 try:
                     mi = g.inv
                     invs.append("(Ok " + mat_lit(mi.matrix.tolist()) + ")")
@@ -197,12 +235,16 @@ def run(ctx):
                     invs.append("(Err AssertionErr)")
                     # completeness: an integer matrix with determinant +-1 (modulo 0) must be invertible
                     if modulo == 0:
-                        det = round(float(np.linalg.det(np.array(mats[gi], dtype=np.float64))))
-                        if abs(det) == 1 and max(abs(v) for row in mats[gi] for v in row) < 2**20:
-                            ctx.violation("property_fails", "MatrixGenerator.inv rejects an integer matrix with determinant +-1", dict(case, index=gi), True)
+                        ei = exact_integer_inverse(mats[gi])
+                        if ei is not None and max(abs(v) for row in ei for v in row) < 2**62 and max(abs(v) for row in mats[gi] for v in row) < 2**31:
+                            ctx.violation("property_fails", "MatrixGenerator.inv rejects an integer matrix whose inverse is an integer matrix (determinant +-1)",
+                                          dict(case, index=gi), True)
                 except Exception as ex:  # pylint: disable=broad-except
                     invs.append("(Err " + ERR.get(type(ex).__name__, "RuntimeErr") + ")")
                 cands.append(recorded[0] if recorded else [[0] * n for _ in range(n)])
+                exacts.append(recorded_exact[0] if recorded_exact else None)
+                if recorded_exact:
+                    ctx.count("exact_fallback_used" + ("" if recorded_exact[0] is not None else "_no_integer_inverse"))
                 if not recorded and "Ok" in invs[-1]:
                     raise TieBroken("MatrixGenerator.inv did not call np.linalg.inv (oracle not observable)")
             # singular matrices raise LinAlgError inside numpy before the assertion: model has no candidate; skip such cases for the model
@@ -234,10 +276,12 @@ def run(ctx):
             else:
                 missing_lit = cnl(missing)
             cases.append("(Build_mat_def_case " + " ".join([cz(modulo), f"{n}%nat", mats_lit(mats), copt(invmap, cnl), cbool(flag),
-                                                          mats_lit(cands), clist(invs), missing_lit]) + ")")
+                                                          mats_lit(cands), clist(exacts, lambda e: copt(e, mat_lit)), clist(invs), missing_lit]) + ")")
             metas.append(case)
     finally:
         cgd.np.linalg.inv = orig_inv
+        if orig_exact is not None:
+            cgd._integer_inverse = orig_exact
     ctx.sample(metas[0])
     bad = ctx.coq_failing("Base Matrix Def DefRun", "", "mat_def_case", cases, "check_mat_def", "matdef", shard=200)
     ctx.cov["disagreements_checked"] += len(cases)
